@@ -8,6 +8,8 @@ CONSTANTS
   CompactKinds = {"zero", "cur-1", "old", "above"}
   EventKeys = {}
   Expiry = FALSE
+  CompactAfter = 0
+  DelFaultKinds = {}
   GenHist = FALSE
 INIT Init
 NEXT Next
